@@ -215,6 +215,106 @@ Definition asnCopyOid (buf : bytes) (limit p derlen : N) : res (N * bytes) :=
     let '(len, w) := r in
     if 128 <=? last data 0 then Ok (0, w) else Ok (len mod 256, w).
 
+(* ------------------------------------------------------------------------------------------ crl.c: revoked entries *)
+(* parse_digits / parsedate_zulu / mdays (core/src/corelib_date.c 168-190, 283-470), non-strict mode as used by
+   psBrokenDownTimeImport(.., opts without STRICT_ZULU): only the verdict is modelled.  [two] = 2-digit year (UTCTime). *)
+Fixpoint beq_bytes_plain (a b : bytes) : bool :=
+  match a, b with
+  | [], [] => true
+  | x :: a', y :: b' => (x =? y) && beq_bytes_plain a' b'
+  | _, _ => false
+  end.
+Fixpoint digits_val (l : bytes) (acc : N) : option N :=
+  match l with
+  | [] => Some acc
+  | c :: r => if (48 <=? c) && (c <=? 57) then digits_val r (acc * 10 + (c - 48)) else None
+  end.
+Definition parse_digits (s : bytes) (pos n lo hi : N) : option N :=
+  match digits_val (sub_bytes s pos n) 0 with
+  | Some v => if (v <? lo) || (hi <? v) then None else Some v
+  | None => None
+  end.
+Definition s_INDEFINITE : bytes := [57;57;57;57;49;50;51;49;50;51;53;57;53;57;90].       (* "99991231235959Z" *)
+Definition month_days (year1900 mon0 : N) : N :=
+  let d := nth (N.to_nat mon0) [31;28;31;30;31;30;31;31;30;31;30;31] 0 in
+  if d =? 28 then
+    let y := year1900 + 1900 in
+    if (y mod 4 =? 0) && (negb (y mod 100 =? 0) || (y mod 400 =? 0)) then 29 else 28
+  else d.
+Definition time_import (two : bool) (s : bytes) : bool :=
+  let len := lenN s in
+  if 255 <? len then false else
+  if (if two then len <? 12 else len <? 14) then false else
+  let indefinite := negb two && (len =? 15) && beq_bytes_plain s s_INDEFINITE in
+  let ylen := if two then 2 else 4 in
+  match (if indefinite then Some 8099 else if two then parse_digits s 0 2 0 99 else parse_digits s 0 4 1900 2999) with
+  | None => false
+  | Some year =>
+  match parse_digits s ylen 2 1 12, parse_digits s (ylen + 2) 2 1 31, parse_digits s (ylen + 4) 2 0 23,
+        parse_digits s (ylen + 6) 2 0 59, parse_digits s (ylen + 8) 2 0 60 with
+  | Some month, Some mday, Some _, Some _, Some _ =>
+      let y1900 := if indefinite then Some year
+                   else if year <? 50 then Some (year + 100)
+                   else if 1900 <=? year then Some (year - 1900)
+                   else if 100 <=? year then None
+                   else Some year in
+      match y1900 with
+      | None => false
+      | Some y => mday <=? month_days y (month - 1)
+      end
+  | _, _, _, _, _ => false
+  end end.
+
+(* getSerialNum (x509.c 4947-4990): INTEGER or [2] IMPLICIT, value copied.  Result: (serial bytes, p') *)
+Definition getSerialNum (buf : bytes) (c len : N) : res (bytes * N) :=
+  if len <? 1 then Err c_PS_PARSE_FAIL else
+  do t <- rd buf (c + len) c;
+  if negb (t =? n_ASN_CONTEXT_SPECIFIC + 2) && negb (t =? n_ASN_INTEGER) then Err c_PS_PARSE_FAIL else
+  do r <- remap c_PS_PARSE_FAIL (getAsnLength buf (c + 1) (len - 1));
+  let '(vlen, p) := r in
+  if len - 1 <? vlen then Err c_PS_PARSE_FAIL else
+  do sn <- slice buf (c + len) p vlen;
+  Ok (sn, p + vlen).
+
+(* one revoked entry (crl.c 1082-1140).  [fixed] = with C09-crl-revoked-entry-underflow.patch (the serial number
+   and the date must lie inside the entry); without it `p += ilen - (uint32)(p - start)` wraps.
+   Result: (serial, p', bytes consumed from glen) *)
+Definition crl_entry (fixed : bool) (buf : bytes) (endp p : N) : res (bytes * N * N) :=
+  let revStart := p in
+  do r <- remap c_PS_PARSE_FAIL (getAsnSequence32 buf p (u32sub endp p) false);
+  let '(_, ilen, p) := r in
+  let start := p in
+  do s <- getSerialNum buf p (ilen mod two16);          (* psSize_t len parameter *)
+  let '(serial, p) := s in
+  if endp <? p + 1 then Err c_PS_PARSE_FAIL else
+  do tag <- rd buf endp p;
+  if negb (tag =? n_ASN_UTCTIME) && negb (tag =? n_ASN_GENERALIZEDTIME) then Err c_PS_PARSE_FAIL else
+  let p := p + 1 in
+  do r <- remap c_PS_PARSE_FAIL (getAsnLength buf p (u32sub endp p));
+  let '(timelen, p) := r in
+  if u32sub endp p <? timelen then Err c_PS_PARSE_FAIL else
+  do ts <- slice buf endp p timelen;
+  if negb (time_import (tag =? n_ASN_UTCTIME) ts) then Err c_PS_PARSE_FAIL else
+  if fixed && ((ilen <? u32sub p start) || (ilen - u32sub p start <? timelen)) then Err c_PS_PARSE_FAIL else
+  let p := p + (ilen + two32 - u32sub p start mod two32) mod two32 in      (* p += ilen - (uint32)(p - start) *)
+  Ok (serial, p, u32sub p revStart).
+
+(* the while (glen > 0) loop.  Result: serial numbers in order, final p *)
+Fixpoint crl_entries (fuel : nat) (fixed : bool) (buf : bytes) (endp p glen : N) (acc : list bytes) : res (list bytes * N) :=
+  if glen =? 0 then Ok (rev acc, p) else
+  match fuel with
+  | O => OutOfFuel
+  | S f =>
+      do e <- crl_entry fixed buf endp p;
+      let '(serial, p', used) := e in
+      if glen <? used then Err c_PS_PARSE_FAIL
+      else crl_entries f fixed buf endp p' (glen - used) (serial :: acc)
+  end.
+Definition crl_revoked_gen (fixed : bool) (buf : bytes) (endp p glen : N) : res (list bytes * N) :=
+  crl_entries (S (N.to_nat glen)) fixed buf endp p glen [].
+Definition crl_revoked := crl_revoked_gen true.
+Definition crl_revoked_unfixed := crl_revoked_gen false.
+
 (* ------------------------------------------------------------------------------------------ x509.c: GeneralNames *)
 Record gname : Type := mkGname {
   g_id : N;            (* activeName->id = tag & 0xF *)
